@@ -228,6 +228,9 @@ class _CommonFile:
 
         # don't bother preserving trailing whitespace, but do preserve trailing comments
         if skipped.rstrip():
+            if not skipped.endswith((b"\n", b"\r")):
+                # a final comment line w/o line terminator would otherwise swallow the next record added
+                skipped += b"\n"
             source.append((_SKIPPED, skipped))
 
         # NOTE: not replacing ._records until parsing succeeds, so loading is atomic.
